@@ -1,14 +1,16 @@
 """C12 — ToJSONSchema is a pure, deterministic function of the schema."""
+import re
 from . import common as C
 from . import c08
 
 MANIFEST = dict(
-   technique="Lean 4 proof over the store model (conversion = OnAttach annotations on a private scratch copy of the Bag, then applyBag over an arbitrary visiting order) + history correspondence: real derivations, ToJSONSchema calls with every option setting and Parse calls, each document compared with the one an isolated twin family gives",
-   text="For the code after pending/C12-convert-scratch-bag.diff and pending/C08-clone-bag.diff: c12_pure (conversion leaves the store untouched), c12_deterministic / c12_twice (the annotated bag is a function of the schema's observation), c12_order_invariant / c12_doc_deterministic (the keywords are the same for every permutation of the annotated bag, i.e. for every Go map iteration order), c12_hist (along every interleaving of chaining calls, conversions and parses every live schema keeps its observation and converts to the same result). Registry: the Describe/Meta checks' OnAttach (run by the converter against the live schema) is modelled in full (convertReg): c12_reg_frame (no other schema's entry is written), c12_annotate_idem / c12_reg_twice / c12_reg_after_others (after the first conversion the registry is a fixed point, so every later conversion reads the same entry), c12_reg_partial (with the entry absorbed the conversion leaves the registry alone); the full statement c12_reg_full is refuted by conv_registers_meta_check (open known finding conversion-registers-meta-check). Witnesses for the pinned code: today_convert_pollutes_parent (converting String().Min(5) makes String() emit minLength 5) and today_applyBag_order_dependent (File().Size(3).Min(1) converts to minLength 3 or 1 depending on map order).",
+   technique="Lean 4 proof over the store model (conversion = OnAttach annotations on a private scratch copy of the Bag, then applyBag over an arbitrary visiting order; the converter's reads of definition-held member lists through accessors = allocation-only accesses to value-graph cells) + translator (go/ast provenance analysis of jsonschema/to.go: accessor calls, write sites with the origin of the written memory, map ranges with their sinks; accessors classified alias/copy behaviourally) with theorems over the whole regenerated tables + history correspondence: real derivations, ToJSONSchema calls with every option setting and Parse calls, each document compared with the one an isolated twin family gives",
+   text="For the code after pending/C12-convert-scratch-bag.diff and pending/C08-clone-bag.diff: c12_pure (conversion leaves the store untouched), c12_deterministic / c12_twice (the annotated bag is a function of the schema's observation), c12_order_invariant / c12_doc_deterministic (the keywords are the same for every permutation of the annotated bag, i.e. for every Go map iteration order), c12_hist (along every interleaving of chaining calls, conversions and parses every live schema keeps its observation and converts to the same result). Registry: the Describe/Meta checks' OnAttach (run by the converter against the live schema) is modelled in full (convertReg): c12_reg_frame (no other schema's entry is written), c12_annotate_idem / c12_reg_twice / c12_reg_after_others (after the first conversion the registry is a fixed point, so every later conversion reads the same entry), c12_reg_partial (with the entry absorbed the conversion leaves the registry alone); the full statement c12_reg_full is refuted by conv_registers_meta_check (open known finding conversion-registers-meta-check). Definition-held data (literal member lists behind the Def pointer a family shares, handed out by ZodLiteral.Values() by reference): convLiteral_ext / c12_def_pure (accessor, boxing and flattening only allocate: every allocated value graph is observed as before), members_eq_spec / c12_def_after_others / c12_def_twice / c12_def_acc_irrelevant (the document's members are a function of the definition, the same after any conversions of relatives, whether the accessor aliases or copies); excluded shape with witnesses inplace_dedup_changes_definition / inplace_dedup_changes_next_document. Over the tables regenerated from jsonschema/to.go: c12_writes_private (every write site writes memory the conversion made itself), c12_aliasing_accessors_read_only, c12_accessors_classified, c12_scratch_bag_private, c12_ranges_partial (every loop over a map feeds an order-insensitive sink except applyBag's colliding keys and ToJSONSchema(registry): applyBag_field_collisions, registry_range_order_sensitive, c12_ranges_full_false), c12_shape_range_sorted / c12_enum_sort_total / sortedKeys_order_invariant (the loops repaired by 3e22e56; legacy_shape_range_sensitive / legacy_enum_sort_partial for the tree before). Witnesses for the pinned code: today_convert_pollutes_parent (converting String().Min(5) makes String() emit minLength 5) and today_applyBag_order_dependent (File().Size(3).Min(1) converts to minLength 3 or 1 depending on map order).",
    note="The document model covers the part of conversion that goes through the Bag (constraint keywords, patterns) plus registry metadata, Values and Shape identity; structural recursion into member schemas, $defs/ref hoisting and option handling are not modelled and are covered only by the correspondence runs (9 option settings); which schemas a conversion visits (whose Describe/Meta callbacks run) is measured on a scout replica whose checks' exported OnAttach slices are wrapped with recorders. The oracle document is obtained from a replayed isolated twin, which assumes constructors and chaining calls are deterministic. Trusted: Lean kernel, axioms propext/Classical.choice/Quot.sound, the Go harness and comparer.",
    design="DESIGN.md §3.4, §5 C12")
 
-MODULES = ["Gozod.Proofs.C12"]
+MODULES = ["Gozod.Proofs.C12", "Gozod.Proofs.C12Def", "Gozod.Proofs.C12Access"]
+GEN = C.os.path.join(C.LEAN, "Gozod", "Gen", "ConvAccess.lean")
 THEOREMS = [
     "Gozod.C12.c12_pure", "Gozod.C12.c12_pure_obs", "Gozod.C12.c12_deterministic", "Gozod.C12.c12_twice",
     "Gozod.C12.c12_order_invariant", "Gozod.C12.c12_doc_deterministic", "Gozod.C12.entriesOf_nodup",
@@ -16,7 +18,21 @@ THEOREMS = [
     "Gozod.C12.c12_annotate_idem", "Gozod.C12.annotateEntry_eq", "Gozod.C12.c12_reg_frame", "Gozod.C12.c12_reg_twice",
     "Gozod.C12.c12_reg_after_others", "Gozod.C12.c12_reg_partial", "Gozod.C12.absorbed_after_conversion",
     "Gozod.C12.conv_registers_meta_check", "Gozod.C12.c12_reg_full_false", "Gozod.C12.merging_examples_not_idempotent",
+    # definition-held data (member lists behind the shared Def pointer) read through accessors
+    "Gozod.C12Def.convLiteral_ext", "Gozod.C12Def.c12_def_pure", "Gozod.C12Def.members_eq_spec",
+    "Gozod.C12Def.c12_def_after_others", "Gozod.C12Def.c12_def_twice", "Gozod.C12Def.c12_def_acc_irrelevant",
+    "Gozod.C12Def.inplace_dedup_changes_definition", "Gozod.C12Def.inplace_dedup_changes_next_document",
+    # over the tables regenerated from jsonschema/to.go (+ behaviour of the accessors of types/*.go): Gen/ConvAccess.lean
+    "Gozod.C12Access.c12_writes_private", "Gozod.C12Access.c12_aliasing_accessors_read_only",
+    "Gozod.C12Access.c12_accessors_classified", "Gozod.C12Access.c12_scratch_bag_private",
+    "Gozod.C12Access.c12_ranges_partial", "Gozod.C12Access.c12_ranges_full_false", "Gozod.C12Access.applyBag_field_collisions",
+    "Gozod.C12Access.registry_range_order_sensitive", "Gozod.C12Access.c12_shape_range_sorted",
+    "Gozod.C12Access.c12_enum_sort_total", "Gozod.C12Access.sortedKeys_order_invariant",
+    "Gozod.C12Access.legacy_shape_range_sensitive", "Gozod.C12Access.legacy_enum_sort_partial",
 ]
+
+OPT_NAMES = ["default", "io-input", "unrepresentable-any", "reused-ref", "draft-07", "cycles-throw",
+             "registry-self", "registry-all", "registry-empty"]
 
 
 def mask(verdicts, steps):
@@ -42,12 +58,33 @@ def key(op, impl, M, S):
             continue
         typ = st[-1].partition("@")[2]
         if st[1] == "conv":
+            if iv[k].startswith("n"):
+                # fresh isolated twins of this schema do not agree among themselves: the conversion is not a function of
+                # the schema (Go map iteration order shows in the document); class = generator base x option class
+                lazy = lazy or "doc-nondeterministic:%s:%s" % (head[1].split("+")[0], "reused-ref" if st[2] == "3" else "any-option")
+                continue
             if iv[k].startswith("1:") and k < len(mv) and mv[k] == iv[k] and st[4] not in ("0", "scout-failed") and " S:" not in impl:
                 lazy = lazy or "conversion-registers-meta-check"
                 continue
             return ("doc-differs:" if iv[k].startswith("0") else "conversion-changes-live-schema:") + typ
         return "parse-changes-live-schema:" + typ
     return lazy or "tie:" + head[1]
+
+
+M_PART = re.compile(r"m(-|[\[\]0-9,…]+)")
+
+
+def drop_unshown(is_, ms):
+    """A document that shows no member list at its top (`m-`: an error, a panic, a $ref to $defs) cannot be compared with
+    the members the model derives: the member part of that step is dropped on both sides."""
+    a, b = is_.split(";"), ms.split(";")
+    if len(a) != len(b):
+        return is_, ms
+    for k in range(len(a)):
+        if "m-" in a[k]:
+            a[k] = M_PART.sub("", a[k], count=1)
+            b[k] = M_PART.sub("", b[k], count=1)
+    return ";".join(a), ";".join(b)
 
 
 def rewrite(data):
@@ -61,6 +98,7 @@ def rewrite(data):
             impl2.append(iv + " S:" + is_); model2.append(model[i] + "\t-"); continue
         m, s = model[i].split("\t", 1)
         mv, ms = c08.parts(m)
+        is_, ms = drop_unshown(is_, ms)
         sv, _ = c08.parts(s)
         mv, sv = mask(mv, steps), mask(sv, steps)
         if is_ == ms:
@@ -77,12 +115,25 @@ def describe(op):
 
 
 def run(res):
-    ok, detail = C.prove(res, MODULES, THEOREMS)
+    # ONE harness process regenerates Gen/ConvAccess.lean (go/ast provenance analysis of REPO's jsonschema/to.go: accessor
+    # calls, write sites with the origin of the memory written, map ranges with their sinks, convertEnum's sort; accessors
+    # classified alias/copy behaviourally) and then runs the histories; the proofs over the regenerated tables are built
+    # afterwards, under the same lock (table and proof run belong to the same tree). The driver does not import the tables.
+    with C.Lock("c12-gen"):
+        okd, outd = C.lake_build(["driver_c12"])
+        if not okd:
+            C.tie_broken(res, "driver_c12 does not build", outd[-3000:])
+            return res.finish()
+        C.os.environ["C12_GEN_ALSO"] = GEN
+        data, err = C.correspond(res, "C12")
+        ok, detail = C.prove(res, MODULES, THEOREMS)
     if not ok:
-        C.tie_broken(res, "proof Gozod.Proofs.C12", detail)
-    data, err = C.correspond(res, "C12")
+        # a statement over the regenerated tables that stops checking (a write site whose memory is not the converter's
+        # own, an unsorted map range feeding an order-sensitive sink) aims nothing by itself: the histories are the
+        # failing-input search (definition bases x accessors, fresh-twin determinism); if they are green the tie is broken
+        C.tie_broken(res, "proof Gozod.Proofs.C12 / C12Def / C12Access (the latter is over the tables regenerated from jsonschema/to.go)", detail)
     if data is None:
-        C.tie_broken(res, "correspondence C12/convert-histories", err)
+        C.tie_broken(res, "correspondence C12/convert-histories (or the translator jsonschema/to.go -> Gen/ConvAccess.lean)", err)
         return res.finish()
     C.decide(res, "C12", rewrite(data), key, "C12/convert-histories", describe=describe)
     res.coverage["rule"] = ("per base schema (every schema type) and per exported schema-returning method: H1 = derive child, convert child, parent, "
@@ -90,7 +141,7 @@ def run(res):
         "conversions; H3 = random family of 3-6 schemas, 2n random conversions (6 option settings) / parses interleaved with further derivations, "
         "then every schema converted once more; H5 = private metadata registries; H6 = every catalogue check value (gozod.Describe/gozod.Meta with GlobalMeta examples of every JSON kind, "
         "user-defined checks, every check the public methods build: storex/checks.go) through every method taking a core.ZodCheck, result converted 3x, parent, wrapper 3x, sibling, second check, all twice more; "
-        "H7 = the catalogue attached with Internals().AddCheck on every base, converted 3x, child 2x, sibling, all again. Oracle per conversion: the document of an isolated replayed twin; registry entries "
+        "H7 = the catalogue attached with Internals().AddCheck on every base, converted 3x, child 2x, sibling, all again. Bases = every schema type (storex.Bases) + definition-data bases (storex.DefBases: literal member lists any-typed/typed with repeats, one slice member, nested slices, maps, mixed types, arrays; enums over string/int/float/bool/int8/any members with repeats; objects/unions/xors/tuples/arrays/intersections/maps/records/lazies holding the same member instance several times or several composite members). Snapshot per live schema: exported internals + what every slice/map accessor hands out + the definition's own slices/maps; parse fingerprint over the fixed probes + member-derived probes (every member, element, proper prefix). A document that differs from the twin's is re-tried on 24 fresh twins: disagreement among isolated twins = verdict n (nondeterministic). Oracle per conversion: the document of an isolated replayed twin; registry entries "
         "before/after each conversion against the model (convertReg). distinct = distinct op lines.")
     res.assumptions += [
         "constructors and chaining calls are deterministic (the isolated twin is the same derivation replayed)",
